@@ -1,8 +1,7 @@
 (* Proofs/IdemProofs.v — C03: re-parsing the result of a successful parse returns it unchanged, for the
    fragment of declared types `stable` (builtin classes, data classes, unions of those, negations,
    constrained scalars, Optional-style rules, homogeneous sequences of stable types with checking
-   constraints), whenever the first result is exactly typed (`typed`: what the converters return except for
-   the one documented leak, int([True]) is True).  One lemma per construct of Model/Parse.v, assuming the
+   constraints), (the first result is exactly typed, `typed`: derived, not assumed).  One lemma per construct of Model/Parse.v, assuming the
    statement for the recursive knot; tied by induction on the fuel at the end. *)
 From UV Require Import Parse Conforms Stable ConvProofs Monad ConstraintSpec ConstraintProofs ConformProofs.
 From Coq Require Import Lia.
@@ -476,19 +475,12 @@ Proof.
   destruct ell; try discriminate. auto.
 Qed.
 
-(* typed / xor_exact of a fixed-length tuple, as relations *)
+(* typed of a fixed-length tuple, as a relation *)
 Fixpoint typed_list (ts : list ty) (ys : list pyval) : bool :=
   match ts, ys with
   | [], _ => true
   | a :: ts', y :: ys' => typed a y && typed_list ts' ys'
   | _ :: _, [] => false
-  end.
-
-Fixpoint xor_list (ts : list ty) (ys : list pyval) : bool :=
-  match ts, ys with
-  | [], _ => true
-  | a :: ts', y :: ys' => xor_exact a y && xor_list ts' ys'
-  | _ :: _, [] => true
   end.
 
 (* Tuple[T1, ..., Tn] *)
@@ -760,7 +752,7 @@ End Step.
 (* ================= the results of a parse are typed (up to the bool-for-int leak) ================= *)
 Definition typed_tr (tr : knot) : Prop :=
   forall o depth t v s s' w, throwing o -> stable t = true ->
-    tr o depth t v s = (s', Ok w) -> xor_exact t w = true ->
+    tr o depth t v s = (s', Ok w) ->
     typed t w = true /\ (exact_arm t = true -> exact_type t w = true) /\ (t = TPrim TDict -> w <> PNone).
 
 Section Typed.
@@ -768,10 +760,10 @@ Variable tr : knot.
 Hypothesis Htyp : typed_tr tr.
 
 Lemma enter_typed o depth a x r : throwing o -> stable a = true ->
-  enter_tr tr o depth true a x = Entered (Ok r) -> xor_exact a r = true ->
+  enter_tr tr o depth true a x = Entered (Ok r) ->
   typed a r = true /\ (exact_arm a = true -> exact_type a r = true) /\ (a = TPrim TDict -> r <> PNone).
 Proof.
-  intros Ho Hst H Hi. unfold enter_tr, in_fresh in H.
+  intros Ho Hst H. unfold enter_tr, in_fresh in H.
   destruct (depth_check o (new_depth depth true)); try discriminate H;
   (destruct (tr o (new_depth depth true) a x no_errs) as [s1 r1] eqn:E; cbn [snd] in H;
    injection H as ->; eapply Htyp; eassumption).
@@ -780,14 +772,13 @@ Qed.
 Lemma rule_tuple_typed o depth args vals mn mx v s s' w :
   throwing o -> checking_vals vals = true -> args <> [] -> forallb stable args = true ->
   rule_parse re tr o depth (Some (TPrim TTuple)) args false vals None mn mx v s = (s', Ok w) ->
-  (match w with PTuple xs => xor_list args xs | _ => true end) = true ->
   (match w with PTuple xs => typed_list args xs | _ => false end) = true.
 Proof.
-  intros Ho Hck Hne Hst H Hi.
+  intros Ho Hck Hne Hst H.
   destruct (rule_parse_inv tr _ _ _ _ _ _ _ _ _ _ _ _ Hck H) as (s1 & v1 & Hor & Hcase).
   destruct Hcase as [(ot & _ & -> & ->)|(sa & Hap & He & _)].
   { (* tuple(...) never returns None *) exfalso.
-    destruct (Htyp _ _ _ _ _ _ _ Ho (eq_refl : stable (TPrim TTuple) = true) Hor eq_refl) as [_ [Hex _]].
+    destruct (Htyp _ _ _ _ _ _ _ Ho (eq_refl : stable (TPrim TTuple) = true) Hor) as [_ [Hex _]].
     specialize (Hex eq_refl). discriminate Hex. }
   assert (Eap : args_parser_of (Some (TPrim TTuple)) args false = APTuple).
   { destruct args; [contradiction|reflexivity]. }
@@ -808,30 +799,29 @@ Proof.
     - injection Hex as <-. apply grows_refl. }
   assert (Hsx : e_errors sx = []) by (eapply grows_nil; eassumption).
   destruct (Hn ltac:(congruence)) as (new & Hnew & HF & _). cbn [app] in Hnew. subst new.
-  clear - HF Hi Hst Ho Htyp. revert Hi Hst.
+  clear - HF Hst Ho Htyp. revert Hst.
   generalize (match o_addition o with Some true => skipn (List.length args) vals0 | _ => [] end).
-  induction HF as [|a r args res Hp HF IH]; intros ex Hi Hst; [reflexivity|].
+  induction HF as [|a r args res Hp HF IH]; intros ex Hst; [reflexivity|].
   cbn [forallb] in Hst. apply andb_prop in Hst. destruct Hst as [Ha Hst].
-  cbn [app xor_list typed_list] in *. apply andb_prop in Hi. destruct Hi as [Hia Hi].
+  cbn [app typed_list] in *.
   destruct Hp as [x Hx]. apply andb_true_intro. split.
-  - eapply enter_typed; [exact Ho|exact Ha|exact Hx|exact Hia].
+  - eapply enter_typed; [exact Ho|exact Ha|exact Hx].
   - eapply IH; eassumption.
 Qed.
 
 Lemma rule_parse_typed o depth origin args ell vals ct mn mx v s s' w :
   throwing o -> stable (TRule origin args ell vals ct mn mx) = true ->
   rule_parse re tr o depth origin args ell vals ct mn mx v s = (s', Ok w) ->
-  xor_exact (TRule origin args ell vals ct mn mx) w = true ->
   typed (TRule origin args ell vals ct mn mx) w = true.
 Proof.
-  intros Ho Hst H Hi. cbn [stable] in Hst.
+  intros Ho Hst H. cbn [stable] in Hst.
   apply andb_prop in Hst. destruct Hst as [Hst Hshape]. apply andb_prop in Hst. destruct Hst as [Hck Hct].
   destruct ct as [c|]; [discriminate Hct|]. clear Hct.
-  cbn [typed xor_exact] in *.
+  cbn [typed] in *.
   destruct (tuple_origin origin ell && negb (match args with [] => true | _ => false end)) eqn:Etup.
   { apply andb_prop in Etup. destruct Etup as [Eto Ene]. destruct (tuple_origin_inv _ _ Eto) as [-> ->].
     assert (Hne : args <> []) by (destruct args; [discriminate Ene|discriminate]).
-    exact (rule_tuple_typed o depth args vals mn mx v s s' w Ho Hck Hne Hshape H Hi). }
+    exact (rule_tuple_typed o depth args vals mn mx v s s' w Ho Hck Hne Hshape H). }
   destruct (rule_parse_inv tr _ _ _ _ _ _ _ _ _ _ _ _ Hck H) as (s1 & v1 & Hor & Hcase).
   destruct args as [|a [|b [|]]]; try discriminate Hshape.
   - (* no args: the result is what the origin returned *)
@@ -846,8 +836,7 @@ Proof.
     { (* a sequence origin never returns None *) exfalso.
       pose proof Hor as Hx.
       assert (Hst : stable (TPrim p) = true) by reflexivity.
-      assert (Hi0 : xor_exact (TPrim p) PNone = true) by (destruct p; reflexivity).
-      destruct (Htyp _ _ _ _ _ _ _ Ho Hst Hx Hi0) as [_ [Hex _]].
+      destruct (Htyp _ _ _ _ _ _ _ Ho Hst Hx) as [_ [Hex _]].
       assert (Ha : exact_arm (TPrim p) = true) by (destruct p; try discriminate Hsp; reflexivity).
       specialize (Hex Ha). destruct p; discriminate Hex || discriminate Hsp. }
     rewrite (seq_parser p ell a Hsp) in Hap.
@@ -862,13 +851,13 @@ Proof.
     rewrite Hit in *. rewrite Hex. cbn [andb].
     apply Hsub in HF. rewrite forallb_Forall in *. rewrite Forall_forall in *.
     intros x Hx. destruct (HF x Hx) as [x0 Hx0].
-    eapply enter_typed; [exact Ho|exact Hsa|exact Hx0|apply Hi; exact Hx].
+    eapply enter_typed; [exact Ho|exact Hsa|exact Hx0].
   - (* a mapping *)
     destruct origin as [[|p| | |]|]; try discriminate Hshape. destruct p; try discriminate Hshape.
     apply andb_prop in Hshape. destruct Hshape as [Hsk Hsv].
     destruct Hcase as [(ot' & _ & -> & ->)|(sa & Hap & He & _)].
     { (* dict(...) never returns None *) exfalso.
-      destruct (Htyp _ _ _ _ _ _ _ Ho (eq_refl : stable (TPrim TDict) = true) Hor eq_refl) as [_ [_ Hnn]].
+      destruct (Htyp _ _ _ _ _ _ _ Ho (eq_refl : stable (TPrim TDict) = true) Hor) as [_ [_ Hnn]].
       apply Hnn; reflexivity. }
     change (args_parser_of (Some (TPrim TDict)) [a; b] ell) with APMap in Hap.
     unfold parse_map_args in Hap. destruct (dict_items v1) as [items|]; [|discriminate Hap].
@@ -878,11 +867,10 @@ Proof.
     assert (Hg0 : good_map tr o depth a b []) by (repeat split; constructor).
     destruct (Hn Hs1 Hg0) as (Hkd & Hks & Hvs).
     rewrite forallb_Forall in *. rewrite Forall_forall in *. intros kv Hin.
-    specialize (Hi kv Hin). apply andb_prop in Hi. destruct Hi as [Hi1 Hi2].
     destruct (Hks kv Hin) as [[k0 Hk0] _]. destruct (Hvs kv Hin) as [v0 Hv0].
     apply andb_true_intro. split.
-    + eapply enter_typed; [exact Ho|exact Hsk|exact Hk0|exact Hi1].
-    + eapply enter_typed; [exact Ho|exact Hsv|exact Hv0|exact Hi2].
+    + eapply enter_typed; [exact Ho|exact Hsk|exact Hk0].
+    + eapply enter_typed; [exact Ho|exact Hsv|exact Hv0].
 Qed.
 
 (* ---- unions: a stage returns what one of the arguments returned for the input ---- *)
@@ -908,57 +896,119 @@ Proof.
         cbn [or_stage] in H. injection H as <-. cbn [e_tmp]. destruct (e_tmp s); discriminate.
 Qed.
 
-Lemma exact_arm_xor a r : exact_arm a = true -> xor_exact a r = true.
-Proof. destruct a as [|p| | |]; try discriminate; reflexivity. Qed.
-
 Lemma exact_arm_stable a : exact_arm a = true -> stable a = true.
 Proof. destruct a; try discriminate; reflexivity. Qed.
+
+(* the ^ loop returns what one of the arguments returned for the input (when exactly one accepted) *)
+Lemma xor_loop_produced o depth all : forall args v res xor s s' r b,
+  incl args all ->
+  xor_loop tr o depth args v res xor s = (s', Ok (r, b)) ->
+  (xor = true -> exists con, In con all /\ enter_tr tr o depth true con v = Entered (Ok res)) ->
+  grows s s' /\ (e_tmp s <> [] -> e_tmp s' <> []) /\
+  (b = true -> exists con, In con all /\ enter_tr tr o depth true con v = Entered (Ok r)) /\
+  (b = false -> (xor = true -> e_errors s' <> e_errors s) /\
+                (xor = false -> args = [] \/ e_tmp s' <> [] \/ e_errors s' <> e_errors s)).
+Proof.
+  induction args as [|con rest IH]; intros v res xor s s' r b Hin H Hx; cbn [xor_loop] in H.
+  - injection H as <- <- <-. split; [apply grows_refl|]. split; [auto|]. split; [exact Hx|].
+    intros ->. split; [intros Ht; discriminate|intros _; left; reflexivity].
+  - assert (Hin' : incl rest all) by (intros x Hxx; apply Hin; right; exact Hxx).
+    destruct (enter_tr tr o depth true con v) as [e|[w|e| | |]] eqn:E; try discriminate H.
+    + destruct xor; cbn [negb] in H.
+      * destruct (handle_error o (parse_err KOneOf) false s) as [s1 [[]|e1| | |]] eqn:Hh; try discriminate H.
+        -- injection H as <- <- <-.
+           split; [eapply handle_error_grows; exact Hh|].
+           split; [rewrite (handle_error_tmp _ _ _ _ _ _ Hh); auto|].
+           split; [intros Hf; discriminate|]. intros _. split; [|intros Hf; discriminate].
+           intros _. rewrite (handle_error_adds _ _ _ _ _ _ Hh). apply app_ne_self. discriminate.
+        -- unfold collect_tmp_error in H.
+           destruct (IH _ _ _ _ _ _ _ Hin' H Hx) as (G & Ht & Hb & Hf).
+           pose proof (handle_error_adds _ _ _ _ _ _ Hh) as Ha.
+           assert (G1 : grows s s').
+           { destruct G as [y Hy]. cbn [e_errors] in Hy. exists ([parse_err KOneOf] ++ y).
+             rewrite Hy, Ha, <- app_assoc. reflexivity. }
+           split; [exact G1|].
+           split; [intros _; apply Ht; cbn [e_tmp]; destruct (e_tmp s1); discriminate|].
+           split; [exact Hb|]. intros Hbf. split; [|intros Hf'; discriminate].
+           intros _. destruct G as [y Hy]. cbn [e_errors] in Hy. rewrite Hy, Ha, <- app_assoc.
+           apply app_ne_self. discriminate.
+      * assert (Hw : exists c, In c all /\ enter_tr tr o depth true c v = Entered (Ok w)).
+        { exists con. split; [apply Hin; left; reflexivity|exact E]. }
+        destruct (IH _ _ _ _ _ _ _ Hin' H (fun _ => Hw)) as (G & Ht & Hb & Hf).
+        split; [exact G|]. split; [exact Ht|]. split; [exact Hb|].
+        intros Hbf. split; [intros Hf'; discriminate|]. intros _. right; right. apply Hf; auto.
+    + apply mbind_ok in H. destruct H as (s1 & [] & Hc & H). unfold collect_tmp_error in Hc. injection Hc as <-.
+      destruct (IH _ _ _ _ _ _ _ Hin' H Hx) as (G & Ht & Hb & Hf).
+      split; [exact G|].
+      assert (Htn : e_tmp s' <> []) by (apply Ht; cbn [e_tmp]; destruct (e_tmp s); discriminate).
+      split; [intros _; exact Htn|]. split; [exact Hb|].
+      intros Hbf. destruct (Hf Hbf) as [Hf1 Hf2]. split; [exact Hf1|]. intros _. right; left. exact Htn.
+Qed.
 
 Lemma logical_parse_typed o depth op args v s s' w :
   throwing o -> stable (TLogic op args) = true ->
   logical_parse tr o depth op args v s = (s', Ok w) ->
-  xor_exact (TLogic op args) w = true -> typed (TLogic op args) w = true.
+  typed (TLogic op args) w = true.
 Proof.
-  intros Ho Hst H Hi. destruct op; cbn [stable] in Hst; try discriminate Hst; cbn [typed xor_exact] in *;
-    try exact Hi; try reflexivity.
-  apply andb_prop in Hst. destruct Hst as [Hne Harms].
-  destruct (existsb (fun a => exact_type a w) args) eqn:Ew; [reflexivity|]. exfalso.
-  (* a result produced by an argument is an exact instance of it *)
-  assert (Hprod : forall o', throwing o' -> forall a, In a args -> enter_tr tr o' depth true a v = Entered (Ok w) -> False).
-  { intros o' Ho' a Hin E. rewrite forallb_forall in Harms. pose proof (Harms a Hin) as Ha.
-    destruct (enter_typed o' depth a v w Ho' (exact_arm_stable a Ha) E (exact_arm_xor a w Ha)) as [_ [Hex _]].
-    specialize (Hex Ha).
-    assert (Hc : existsb (fun a => exact_type a w) args = true) by (apply existsb_exists; eauto).
-    congruence. }
-  cbn [logical_parse] in H.
-  destruct (existsb (fun con => exact_type con v) args) eqn:Ex.
-  { injection H as _ <-. congruence. }
-  apply mbind_ok in H. destruct H as (s1 & r1 & H1 & H).
-  assert (Hst1 : match r1 with Some r => r = w -> False | None => True end).
-  { destruct (negb (o_no_data_loss o) || negb (o_no_explicit_cast o)).
-    - destruct (or_stage_produced _ depth _ _ _ _ _ H1) as [_ Hr]. destruct r1 as [r|]; [|exact I].
-      intros ->. destruct Hr as (a & Hin & E). eapply Hprod; [apply throwing_with_flags; exact Ho|exact Hin|exact E].
-    - injection H1 as _ <-. exact I. }
-  destruct r1 as [r|]; [injection H as _ <-; apply Hst1; reflexivity|].
-  apply mbind_ok in H. destruct H as (s2 & r2 & H2 & H).
-  assert (Hst2 : match r2 with Some r => r = w -> False | None => True end).
-  { destruct (negb (o_no_data_loss o) && negb (o_no_explicit_cast o)).
-    - destruct (or_stage_produced _ depth _ _ _ _ _ H2) as [_ Hr]. destruct r2 as [r|]; [|exact I].
-      intros ->. destruct Hr as (a & Hin & E). eapply Hprod; [apply throwing_with_flags; exact Ho|exact Hin|exact E].
-    - injection H2 as _ <-. exact I. }
-  destruct r2 as [r|]; [injection H as _ <-; apply Hst2; reflexivity|].
-  apply mbind_ok in H. destruct H as (s3 & r3 & H3 & H).
-  destruct (or_stage_produced _ depth _ _ _ _ _ H3) as [_ Hr].
-  destruct r3 as [r|].
-  { injection H as _ <-. destruct Hr as (a & Hin & E). eapply Hprod; [exact Ho|exact Hin|exact E]. }
-  apply mbind_ok in H. destruct H as (s4 & [] & Hre & H). injection H as _ <-.
-  apply raise_error_ok in Hre. destruct Hre as (-> & _ & Htmp).
-  destruct Hr as [->|Hr]; [discriminate Hne|contradiction].
+  intros Ho Hst H. destruct op; cbn [stable] in Hst; try discriminate Hst; cbn [typed] in *; try reflexivity.
+  - (* | *)
+    apply andb_prop in Hst. destruct Hst as [Hne Harms].
+    destruct (existsb (fun a => exact_type a w) args) eqn:Ew; [reflexivity|]. exfalso.
+    (* a result produced by an argument is an exact instance of it *)
+    assert (Hprod : forall o', throwing o' -> forall a, In a args -> enter_tr tr o' depth true a v = Entered (Ok w) -> False).
+    { intros o' Ho' a Hin E. rewrite forallb_forall in Harms. pose proof (Harms a Hin) as Ha.
+      destruct (enter_typed o' depth a v w Ho' (exact_arm_stable a Ha) E) as [_ [Hex _]].
+      specialize (Hex Ha).
+      assert (Hc : existsb (fun a => exact_type a w) args = true) by (apply existsb_exists; eauto).
+      congruence. }
+    cbn [logical_parse] in H.
+    destruct (existsb (fun con => exact_type con v) args) eqn:Ex.
+    { injection H as _ <-. congruence. }
+    apply mbind_ok in H. destruct H as (s1 & r1 & H1 & H).
+    assert (Hst1 : match r1 with Some r => r = w -> False | None => True end).
+    { destruct (negb (o_no_data_loss o) || negb (o_no_explicit_cast o)).
+      - destruct (or_stage_produced _ depth _ _ _ _ _ H1) as [_ Hr]. destruct r1 as [r|]; [|exact I].
+        intros ->. destruct Hr as (a & Hin & E). eapply Hprod; [apply throwing_with_flags; exact Ho|exact Hin|exact E].
+      - injection H1 as _ <-. exact I. }
+    destruct r1 as [r|]; [injection H as _ <-; apply Hst1; reflexivity|].
+    apply mbind_ok in H. destruct H as (s2 & r2 & H2 & H).
+    assert (Hst2 : match r2 with Some r => r = w -> False | None => True end).
+    { destruct (negb (o_no_data_loss o) && negb (o_no_explicit_cast o)).
+      - destruct (or_stage_produced _ depth _ _ _ _ _ H2) as [_ Hr]. destruct r2 as [r|]; [|exact I].
+        intros ->. destruct Hr as (a & Hin & E). eapply Hprod; [apply throwing_with_flags; exact Ho|exact Hin|exact E].
+      - injection H2 as _ <-. exact I. }
+    destruct r2 as [r|]; [injection H as _ <-; apply Hst2; reflexivity|].
+    apply mbind_ok in H. destruct H as (s3 & r3 & H3 & H).
+    destruct (or_stage_produced _ depth _ _ _ _ _ H3) as [_ Hr].
+    destruct r3 as [r|].
+    { injection H as _ <-. destruct Hr as (a & Hin & E). eapply Hprod; [exact Ho|exact Hin|exact E]. }
+    apply mbind_ok in H. destruct H as (s4 & [] & Hre & H). injection H as _ <-.
+    apply raise_error_ok in Hre. destruct Hre as (-> & _ & Htmp).
+    destruct Hr as [->|Hr]; [discriminate Hne|contradiction].
+  - (* ^ *)
+    apply andb_prop in Hst. destruct Hst as [Hne Harms].
+    cbn [logical_parse] in H.
+    destruct (existsb (fun con => exact_type con v) args) eqn:Ex.
+    { injection H as _ <-. exact Ex. }
+    apply mbind_ok in H. destruct H as (s1 & [v' xor] & Hx & H).
+    apply mbind_ok in H. destruct H as (s2 & [] & Hc & H).
+    apply mbind_ok in H. destruct H as (s3 & [] & Hr & H). injection H as _ <-.
+    apply raise_error_ok in Hr. destruct Hr as (-> & He & Htmp).
+    destruct (xor_loop_produced o depth args _ _ _ _ _ _ _ _ (incl_refl _) Hx) as (G & Ht & Hb & Hf);
+      [intros Hf; discriminate|].
+    destruct xor.
+    + destruct (Hb eq_refl) as (con & Hin & E).
+      rewrite forallb_forall in Harms. pose proof (Harms con Hin) as Ha.
+      destruct (enter_typed o depth con v v' Ho (exact_arm_stable con Ha) E) as [_ [Hex _]].
+      apply existsb_exists. exists con. split; [exact Hin|exact (Hex Ha)].
+    + exfalso. injection Hc as <-. destruct (Hf eq_refl) as [_ Hf2].
+      destruct (Hf2 eq_refl) as [->|[Hn|Hn]]; [discriminate Hne|contradiction|].
+      apply Hn. rewrite He. symmetry. eapply grows_nil; eassumption.
 Qed.
 
 Lemma transform_step_typed : typed_tr (transform_step re D tr).
 Proof.
-  intros o depth t v s s' w Ho Hst H Hi. destruct t as [|p|origin args ell vals ct mn mx|op args|c]; cbn [transform_step] in *.
+  intros o depth t v s s' w Ho Hst H. destruct t as [|p|origin args ell vals ct mn mx|op args|c]; cbn [transform_step] in *.
   - split; [reflexivity|]. split; discriminate.
   - unfold lift in H. injection H as _ H. split; [cbn [typed]; apply negb_true_iff; eapply conv_prim_noleak; exact H|]. split.
     + intros Ha. cbn [exact_type]. eapply conv_prim_exact; eassumption.
@@ -1007,35 +1057,35 @@ Proof.
    destruct (transform re D fuel o 1 _ v no_errs) as [s1 r] eqn:E; cbn [snd] in H; subst r;
    rewrite (proj1 (transform_fixed fuel) _ _ _ _ _ _ _ Ho Hst E Hty no_errs clean_no_errs); reflexivity).
 Qed.
-(* the two halves together: only the bool-for-int leak is left as a hypothesis *)
+(* the two halves together *)
 Theorem transform_reparse fuel o depth t v s s' w : throwing o -> stable t = true ->
-  transform re D fuel o depth t v s = (s', Ok w) -> xor_exact t w = true ->
+  transform re D fuel o depth t v s = (s', Ok w) ->
   forall s2, clean s2 -> transform re D fuel o depth t w s2 = (s2, Ok w).
 Proof.
-  intros Ho Hst H Hi. apply (proj1 (transform_fixed fuel) _ _ _ _ _ _ _ Ho Hst H).
-  apply (transform_typed fuel _ _ _ _ _ _ _ Ho Hst H Hi).
+  intros Ho Hst H. apply (proj1 (transform_fixed fuel) _ _ _ _ _ _ _ Ho Hst H).
+  apply (transform_typed fuel _ _ _ _ _ _ _ Ho Hst H).
 Qed.
 
 Theorem call_type_reparse fuel o t v w : throwing o -> stable t = true ->
-  call_type re D fuel o t v = Ok w -> xor_exact t w = true -> call_type re D fuel o t w = Ok w.
+  call_type re D fuel o t v = Ok w -> call_type re D fuel o t w = Ok w.
 Proof.
-  intros Ho Hst H Hi. eapply call_type_fixed; try eassumption.
+  intros Ho Hst H. eapply call_type_fixed; try eassumption.
   unfold call_type in H.
   destruct t; try discriminate H;
   (destruct (depth_check o 1); try discriminate H; cbn [bind] in *;
    unfold in_fresh in *;
    destruct (transform re D fuel o 1 _ v no_errs) as [s1 r] eqn:E; cbn [snd] in H; subst r;
-   apply (transform_typed fuel _ _ _ _ _ _ _ Ho Hst E Hi)).
+   apply (transform_typed fuel _ _ _ _ _ _ _ Ho Hst E)).
 Qed.
 
 Theorem type_transform_reparse fuel o t v w : throwing o -> stable t = true ->
-  type_transform re D fuel o t v = Ok w -> xor_exact t w = true -> type_transform re D fuel o t w = Ok w.
+  type_transform re D fuel o t v = Ok w -> type_transform re D fuel o t w = Ok w.
 Proof.
-  intros Ho Hst H Hi. unfold type_transform in *.
+  intros Ho Hst H. unfold type_transform in *.
   destruct (depth_check o 1); try discriminate H; cbn [bind] in *;
   unfold in_fresh in *;
   (destruct (transform re D fuel o 1 t v no_errs) as [s1 r] eqn:E; cbn [snd] in H; subst r;
-   rewrite (transform_reparse fuel _ _ _ _ _ _ _ Ho Hst E Hi no_errs clean_no_errs); reflexivity).
+   rewrite (transform_reparse fuel _ _ _ _ _ _ _ Ho Hst E no_errs clean_no_errs); reflexivity).
 Qed.
 
 Lemma throwing_b_spec o : throwing_b o = true -> throwing o.
